@@ -832,7 +832,37 @@ fn engine_case(out: &mut Out, r: &mut Rng) {
                 }
             }
         }
-        let g = G { n: order.len(), out: outl, weighted: prop.is_some() };
+        // the ORDER inside an adjacency list is the store's business (it is not creation order);
+        // take it from the view, but only after checking that the view holds exactly our edges
+        let mut view_out: Vec<Vec<(usize, u64)>> = Vec::new();
+        let mut same = true;
+        for u in 0..order.len() {
+            let ws = view.weights(u);
+            let l: Vec<(usize, u64)> = view
+                .successors(u)
+                .iter()
+                .enumerate()
+                .map(|(k, &v)| (v, ws.map_or(1.0, |w| w[k])))
+                .map(|(v, w)| (v, if w.fract() == 0.0 && w >= 0.0 { w as u64 } else { u64::MAX }))
+                .collect();
+            let (mut a, mut b) = (l.clone(), outl[u].clone());
+            a.sort();
+            b.sort();
+            if a != b {
+                same = false;
+            }
+            view_out.push(l);
+        }
+        if !same {
+            let human = format!("{} nodes={:?} edges={:?}", tag, labels, edges);
+            let i = out.case("(0, [], [], [], 0, [], [], 0, [], [])".to_string(), human.clone(), false);
+            out.fail(i, &human, &format!("build_view projected edges {:?}, the generated data projects to {:?}", view_out, outl), None);
+            continue;
+        }
+        if view_out != outl {
+            out.count("engine_adjacency_reordered_by_store");
+        }
+        let g = G { n: order.len(), out: view_out, weighted: prop.is_some() };
         IDS.with(|t| *t.borrow_mut() = Some(order.clone()));
         let pairs = if label.is_none() { all_pairs(g.n) } else { vec![] };
         run_graph_on(out, &g, &pairs, true, &tag, Some(&eng));
